@@ -134,9 +134,6 @@ func VerifHarness_C01_attestation() {
 		}
 	}
 	zzverif.Assert((err == nil) == ok, "ProcessAttestation accepts exactly the attestations process_attestation accepts")
-	if zzverif.Param("roots", 1) == 0 {
-		return
-	}
 	if ok {
 		zzverif.Reach("attestation accepted")
 		pa := &PendingAttestation{AggregationBits: AttestationBits{bits}, Data: *d, InclusionDelay: slot - d.Slot, ProposerIndex: props[int(slot%spe)]}
@@ -158,14 +155,18 @@ func VerifHarness_C01_attestation() {
 // every other leaf of the state is unchanged (state root against the struct form of the pre-state with only exit epoch,
 // withdrawable epoch, slashed flag, balances and the slashings entry replaced), and the state root is unchanged on refusal.
 //
-// Bounds/assumptions: tiny preset; 3 validators at slot 9 (epoch 4); per validator symbolic slashed flag, effective
-// balance (32 or 17 ETH), balance < 2^40, activation epoch < 8, exit epoch far-future or < 12 and withdrawable epoch
-// far-future resp. exit + MIN_VALIDATOR_WITHDRAWABILITY_DELAY + (0..7); whether a validator is active is chosen (and
-// the epochs constrained accordingly) so that the context's active set is concrete; slashings entries < 2^40; symbolic
-// fork record (fork epoch <= 4); index lists of chosen length 0..3 with symbolic members 0..3 (3 is outside the
-// registry); attestation data 64-bit symbolic; the proposer of the slot is a chosen validator (the epochs context is
-// assembled by hand: current epoch, active set, pubkey cache, proposers); BLS and SHA-256 uninterpreted.
-// Shards: Choose #1 = len(indices 1) (4), #2 = len(indices 2) (4), #3 = proposer (3), #4..#6 = validator i active (2 each).
+// Bounds/assumptions: tiny preset; Param "validators" (default 2) validators at slot 9 (epoch 4); with fewer than 3
+// validators MIN_PER_EPOCH_CHURN_LIMIT is lowered to 1 so that two slashings in one operation already overflow the exit
+// epoch and the order of the slash_validator calls is visible (with 3 validators the preset's limit 2 does that);
+// per validator symbolic slashed flag, effective balance (32 or 17 ETH), balance < 2^40, activation epoch < 8, exit
+// epoch far-future or < 12 and withdrawable epoch far-future resp. exit + MIN_VALIDATOR_WITHDRAWABILITY_DELAY + (0..7);
+// whether a validator is active is chosen (and its epochs constrained accordingly) so that the context's active set is
+// concrete; slashings entries < 2^40; symbolic fork record (fork epoch <= 4); index lists of chosen length
+// 0..Param "maxidx" (default 2) with symbolic members 0..3 (values >= validators are outside the registry; lists over
+// MAX_VALIDATORS_PER_COMMITTEE are the subject of C03_indexed_set); attestation data 64-bit symbolic; the proposer of
+// the slot is the last validator, the other slot of the epoch has a different proposer (the epochs context is assembled
+// by hand: current epoch, active set, pubkey cache, proposers); BLS and SHA-256 uninterpreted.
+// Shards: Choose #1 = len(indices 1) (maxidx+1), #2 = len(indices 2) (maxidx+1), then one Choose(2) per validator (active).
 func VerifHarness_C01_attester_slashing() {
 	spec := common.VTinySpec()
 	n := zzverif.Param("validators", 2)
